@@ -3,7 +3,7 @@ import PhysisModel.Spec.Tex
 import Std.Tactic.BVDecide
 /-!
 Per-block lemmas for C13, for **all** blocks, by arithmetic (no enumeration):
-bit-vector facts (`bv_decide`) turn the Rust shifts / masks into `UIntN` arithmetic, `toNat`
+bit-vector facts (`bv_decide (timeout := 300)`) turn the Rust shifts / masks into `UIntN` arithmetic, `toNat`
 lemmas + `omega` turn that into the natural-number formulas of `Spec/Bcn.lean`.
 `BlockOK` is the interface to the whole-image induction in `Proofs/BcnImage.lean`.
 -/
@@ -14,7 +14,7 @@ def pxOfWord (x : UInt32) : Px := ⟨(x >>> 16).toUInt8, (x >>> 8).toUInt8, x.to
 
 theorem pxOfWord_color (r g b a : UInt8) : pxOfWord (color r g b a) = ⟨r, g, b, a⟩ := by
   simp only [pxOfWord, color, Px.mk.injEq]
-  refine ⟨?_, ?_, ?_, ?_⟩ <;> bv_decide
+  refine ⟨?_, ?_, ?_, ?_⟩ <;> bv_decide (timeout := 300)
 
 theorem mix21 (x y : UInt8) :
     ((x.toUInt16 * 2 + y.toUInt16) / 3).toUInt8.toNat = (2 * x.toNat + 1 * y.toNat) / (2 + 1) := by
@@ -96,11 +96,11 @@ theorem alphaFill_getElem (a : UInt64 → UInt16) (mask shift : UInt32) :
 
 
 theorem and3_toNat (d : UInt64) : (d &&& 3).toNat = d.toNat % 4 := by
-  have : d &&& 3 = d % 4 := by bv_decide
+  have : d &&& 3 = d % 4 := by bv_decide (timeout := 300)
   rw [this]; simp
 
 theorem and7_toNat (d : UInt64) : (d &&& 7).toNat = d.toNat % 8 := by
-  have : d &&& 7 = d % 8 := by bv_decide
+  have : d &&& 7 = d % 8 := by bv_decide (timeout := 300)
   rw [this]; simp
 
 /-- `pick4` by the value of the selector -/
@@ -127,7 +127,7 @@ theorem pick8_eq (a0 a1 a2 a3 a4 a5 a6 a7 : UInt16) (d : UInt64) :
   rcases this with h | h | h | h | h | h | h | h <;> subst h <;> simp [pick8n]
 
 theorem u16le_toNat (a b : UInt8) : (a.toUInt16 ||| (b.toUInt16 <<< 8)).toNat = leNat [a, b] := by
-  have : a.toUInt16 ||| (b.toUInt16 <<< 8) = a.toUInt16 + b.toUInt16 * 256 := by bv_decide
+  have : a.toUInt16 ||| (b.toUInt16 <<< 8) = a.toUInt16 + b.toUInt16 * 256 := by bv_decide (timeout := 300)
   rw [this]
   have := a.toNat_lt; have := b.toNat_lt
   simp only [UInt16.toNat_add, UInt16.toNat_mul, UInt8.toNat_toUInt16, UInt16.toNat_ofNat, leNat,
@@ -138,7 +138,7 @@ theorem u32le_toNat (a b c d : UInt8) :
     (a.toUInt32 ||| (b.toUInt32 <<< 8) ||| (c.toUInt32 <<< 16) ||| (d.toUInt32 <<< 24)).toUInt64.toNat
       = leNat [a, b, c, d] := by
   have : a.toUInt32 ||| (b.toUInt32 <<< 8) ||| (c.toUInt32 <<< 16) ||| (d.toUInt32 <<< 24)
-      = a.toUInt32 + b.toUInt32 * 256 + c.toUInt32 * 65536 + d.toUInt32 * 16777216 := by bv_decide
+      = a.toUInt32 + b.toUInt32 * 256 + c.toUInt32 * 65536 + d.toUInt32 * 16777216 := by bv_decide (timeout := 300)
   rw [this]
   have := a.toNat_lt; have := b.toNat_lt; have := c.toNat_lt; have := d.toNat_lt
   simp only [UInt32.toNat_toUInt64, UInt32.toNat_add, UInt32.toNat_mul, UInt8.toNat_toUInt32,
@@ -151,7 +151,7 @@ theorem rgb565le_u16 (q : UInt16) :
     (rgb565le q).2.1.toUInt16 = (q / 32 % 64) * 4 + (q / 32 % 64) / 16 ∧
     (rgb565le q).2.2.toUInt16 = (q % 32) * 8 + (q % 32) / 4 := by
   simp only [rgb565le]
-  refine ⟨?_, ?_, ?_⟩ <;> bv_decide
+  refine ⟨?_, ?_, ?_⟩ <;> bv_decide (timeout := 300)
 
 theorem rgb565le_spec (q : UInt16) :
     (rgb565le q).1.toNat = (rgb565 q.toNat).r ∧
@@ -219,7 +219,7 @@ theorem u48_toNat (d0 d1 d2 d3 d4 d5 d6 d7 : UInt8) :
   have : (d0.toUInt64 ||| (d1.toUInt64 <<< 8) ||| (d2.toUInt64 <<< 16) ||| (d3.toUInt64 <<< 24) |||
       (d4.toUInt64 <<< 32) ||| (d5.toUInt64 <<< 40) ||| (d6.toUInt64 <<< 48) ||| (d7.toUInt64 <<< 56)) >>> 16
       = d2.toUInt64 + d3.toUInt64 * 256 + d4.toUInt64 * 65536 + d5.toUInt64 * 16777216
-        + d6.toUInt64 * 4294967296 + d7.toUInt64 * 1099511627776 := by bv_decide
+        + d6.toUInt64 * 4294967296 + d7.toUInt64 * 1099511627776 := by bv_decide (timeout := 300)
   rw [this]
   have := d2.toNat_lt; have := d3.toNat_lt; have := d4.toNat_lt; have := d5.toNat_lt
   have := d6.toNat_lt; have := d7.toNat_lt
@@ -274,17 +274,17 @@ theorem decodeBc3Alpha_ok (d0 d1 d2 d3 d4 d5 d6 d7 : UInt8) (rest : Bytes) (out 
 theorem setChan3 (p : UInt32) (v : UInt16) (hv : v ≤ 255) :
     pxOfWord ((p &&& chanMask 3) ||| (v.toUInt32 <<< (3 * 8))) = { pxOfWord p with a := v.toUInt8 } := by
   simp only [pxOfWord, chanMask, Px.mk.injEq]
-  refine ⟨?_, ?_, ?_, ?_⟩ <;> bv_decide
+  refine ⟨?_, ?_, ?_, ?_⟩ <;> bv_decide (timeout := 300)
 
 theorem setChan2 (p : UInt32) (v : UInt16) (hv : v ≤ 255) :
     pxOfWord ((p &&& chanMask 2) ||| (v.toUInt32 <<< (2 * 8))) = { pxOfWord p with r := v.toUInt8 } := by
   simp only [pxOfWord, chanMask, Px.mk.injEq]
-  refine ⟨?_, ?_, ?_, ?_⟩ <;> bv_decide
+  refine ⟨?_, ?_, ?_, ?_⟩ <;> bv_decide (timeout := 300)
 
 theorem setChan1 (p : UInt32) (v : UInt16) (hv : v ≤ 255) :
     pxOfWord ((p &&& chanMask 1) ||| (v.toUInt32 <<< (1 * 8))) = { pxOfWord p with g := v.toUInt8 } := by
   simp only [pxOfWord, chanMask, Px.mk.injEq]
-  refine ⟨?_, ?_, ?_, ?_⟩ <;> bv_decide
+  refine ⟨?_, ?_, ?_, ?_⟩ <;> bv_decide (timeout := 300)
 
 theorem toUInt8_ofNat_toNat (v : UInt16) (_hv : v ≤ 255) : UInt8.ofNat v.toNat = v.toUInt8 := by
   apply UInt8.toNat_inj.mp
